@@ -122,9 +122,16 @@ def populate(rng, L, steps, n=None, names=None, allow_invalid=False, now=None, o
         d = date_fn(rng) if date_fn else rand_date(rng, now)
         k_ = rng.choice(kinds)
         if k_ == 'link' and rng.random() < 0.5:
-            k_ = rng.choice(['link_absdir', 'link_absdir', 'link_absfile'])     # links whose target exists (outside the trash)
+            k_ = rng.choice(['link_absdir', 'link_absdir', 'link_absfile', 'link_loop'])     # links whose target exists (outside the trash); a link to itself
         G.add_trashed(steps, tdir, nm, pv, iso(d), k_, tag=str(i))
         made.append((tdir, nm, loc, iso(d)))
+        if rng.random() < 0.06 and len(nm.encode('utf-8', 'surrogateescape')) < 180 and (tdir, nm + '.trashinfo') not in used:
+            # next to X an entry called X.trashinfo (somebody trashed a stray info file): its info is X.trashinfo.trashinfo, its
+            # payload files/X.trashinfo - whoever strips the suffix carelessly lands on the payload of X
+            used.add((tdir, nm + '.trashinfo'))
+            d2 = date_fn(rng) if date_fn else rand_date(rng, now)
+            G.add_trashed(steps, tdir, nm + '.trashinfo', pv + '.trashinfo', iso(d2), rng.choice(['file', 'file', 'none']), tag='%d-ti' % i)
+            made.append((tdir, nm + '.trashinfo', loc + '.trashinfo', iso(d2)))
     return made
 
 
